@@ -24,6 +24,9 @@ pub async fn list_objects(
         bucket, prefix
     );
 
+    #[cfg(feature = "verif-hooks")]
+    let path = crate::aws::s3::verif_hooks::rewrite_url(path);
+
     let response = reqwest::get(path).await.map_err(S3ListObjectsError)?;
     trace!("  List objects response status: {}", response.status());
 
